@@ -7,7 +7,8 @@ use std::time::Duration;
 #[global_allocator]
 static GLOBAL: alloc::Counting = alloc::Counting;
 
-const VERIF: &str = "/verif";
+/// `/verif`, unless MECHSIM_VERIF points a shadow run (seeded-change regression in a scratch tree) elsewhere.
+fn verif_dir() -> String { std::env::var("MECHSIM_VERIF").unwrap_or_else(|_| "/verif".to_string()) }
 
 fn arg<'a>(args: &'a [String], name: &str) -> Option<&'a str> {
   args.iter().position(|a| a == name).and_then(|i| args.get(i + 1)).map(|s| s.as_str())
@@ -40,7 +41,7 @@ fn seed_from(args: &[String]) -> u64 {
 }
 
 fn known_sigs() -> Vec<(String, String)> {
-  load_known(&PathBuf::from(VERIF).join("known_findings.jsonl")).into_iter().filter(|k| k.status == "known").map(|k| (k.property, k.signature)).collect()
+  load_known(&PathBuf::from(verif_dir()).join("known_findings.jsonl")).into_iter().filter(|k| k.status == "known").map(|k| (k.property, k.signature)).collect()
 }
 
 // -------------------------------------------------------------------------------------------------
@@ -57,7 +58,7 @@ fn worker(args: &[String]) {
     "W1" => {
       let profile: &'static str = if arg(args, "--profile") == Some("C04") { "C04" } else { "C05" };
       let discover = flag(args, "--discover");
-      let supported = if discover { std::sync::Arc::new(Default::default()) } else { w1::load_supported(&format!("{}/baselines/w1_supported.txt", VERIF)) };
+      let supported = if discover { std::sync::Arc::new(Default::default()) } else { w1::load_supported(&format!("{}/baselines/w1_supported.txt", verif_dir())) };
       supervisor::worker_loop(|k| w1::worker_run(seed, k, profile, supported.clone(), &known, discover));
     }
     "W2" => {
@@ -88,7 +89,7 @@ fn check_cmd(args: &[String]) -> i32 {
   let thorough = tier == "thorough";
   let runs_override: Option<u64> = arg(args, "--runs").and_then(|s| s.parse().ok());
   let budget_override: Option<u64> = arg(args, "--budget-s").and_then(|s| s.parse().ok());
-  let base = PathBuf::from(VERIF);
+  let base = PathBuf::from(verif_dir());
   let common_real = vec![
     "mech-syntax parser (nom)".to_string(), "mech-interpreter (tree-walking interpreter, statements, subscripts)".to_string(),
     "mech-core values/symbol table/plan".to_string(), "stdlib kernels in machines/* and interpreter/src/stdlib".to_string(),
@@ -252,7 +253,7 @@ fn replay_cmd(args: &[String]) -> i32 {
       let ops: Vec<w1::ops::Op> = match serde_json::from_value(j["ops"].clone()) { Ok(o) => o, Err(e) => { eprintln!("bad ops: {}", e); return 2; } };
       let hs = j["hash_seed"].as_u64().unwrap_or(1);
       let props: Vec<String> = j["violation"]["properties"].as_array().map(|a| a.iter().filter_map(|x| x.as_str().map(|s| s.to_string())).collect()).unwrap_or(vec!["C04".into(), "C05".into()]);
-      let supported = w1::load_supported(&format!("{}/baselines/w1_supported.txt", VERIF));
+      let supported = w1::load_supported(&format!("{}/baselines/w1_supported.txt", verif_dir()));
       let r = w1::run::execute_explicit(ops, hs, props, supported, &known_sigs());
       for l in &r.log { println!("{}", l); }
       match r.violation {
